@@ -86,6 +86,44 @@ fn could_match(a: &AnyTerm, b: &AnyTerm) -> Result<bool, String> {
     })
 }
 
+fn kinds6() -> VariableKinds<ChalkIr> {
+    VariableKinds::from_iter(I, (0..6).map(|i| match i % 3 {
+        0 => VariableKind::Ty(TyVariableKind::General),
+        1 => VariableKind::Lifetime,
+        _ => VariableKind::Const(usize_ty()),
+    }))
+}
+
+/// Does real unification (Invariant) succeed once the level-0 bound variables of each side are
+/// replaced by fresh inference variables (kinds by index: i%3 = 0 type, 1 lifetime, 2 const)?
+/// Inference variables mentioned in the inputs must be < 8.
+fn unifies(a: AnyTerm, b: AnyTerm) -> Result<bool, String> {
+    use chalk_solve::infer::InferenceTable;
+    let mut table: InferenceTable<ChalkIr> = InferenceTable::new();
+    let mut top = UniverseIndex::ROOT;
+    for _ in 0..3 { top = table.new_universe(); }
+    for _ in 0..8 { table.new_variable(top); }
+    let env = Environment::new(I);
+    let db = Variances8;
+    macro_rules! go {
+        ($x:expr, $y:expr) => {{
+            let x = table.instantiate_binders_existentially(I, Binders::new(kinds6(), $x));
+            let y = table.instantiate_binders_existentially(I, Binders::new(kinds6(), $y));
+            table.relate(I, &db, &env, Variance::Invariant, &x, &y).is_ok()
+        }};
+    }
+    Ok(match (a, b) {
+        (AnyTerm::Ty(x), AnyTerm::Ty(y)) => go!(x, y),
+        (AnyTerm::Lifetime(x), AnyTerm::Lifetime(y)) => go!(x, y),
+        (AnyTerm::Const(x), AnyTerm::Const(y)) => go!(x, y),
+        (AnyTerm::DomainGoal(x), AnyTerm::DomainGoal(y)) => go!(x, y),
+        (AnyTerm::WhereClause(x), AnyTerm::WhereClause(y)) => go!(x, y),
+        (AnyTerm::TraitRef(x), AnyTerm::TraitRef(y)) => go!(x, y),
+        (AnyTerm::Goal(x), AnyTerm::Goal(y)) => go!(x, y),
+        _ => return Err("Unifies: unsupported pair of categories".into()),
+    })
+}
+
 fn main() {
     vh::batch::run_batch(|c| {
         let a = c.args();
@@ -116,6 +154,11 @@ fn main() {
             }
             "FoldId" => Ok(any_sx(&map_any!(to_any(&a[0])?, |t| t.try_fold_with(&mut IdFolder, DebruijnIndex::INNERMOST).unwrap()))),
             "CouldMatch" => Ok(Sexp::boolean(could_match(&to_any(&a[0])?, &to_any(&a[1])?)?)),
+            "CouldMatchSlice" => {
+                let (x, y) = (params(&a[0])?, params(&a[1])?);
+                Ok(Sexp::boolean(<[GenericArg<ChalkIr>] as CouldMatch<[GenericArg<ChalkIr>]>>::could_match(&x[..], I, &Variances8, &y[..])))
+            }
+            "Unifies" => Ok(Sexp::boolean(unifies(to_any(&a[0])?, to_any(&a[1])?)?)),
             o => Err(format!("unknown op {}", o)),
         }
     });
